@@ -581,18 +581,27 @@ pub fn run(args: &Args) {
     if !args.flag("noexh") {
         let mut n = 0u64;
         for (k, nreg) in [9usize, 15, 16, 17, 18, 31, 32, 33, 63, 64, 65, 100, 129, 257].into_iter().enumerate() {
-            for variant in 0..3u64 {
-                if (k as u64 * 3 + variant) % sh_n != sh_i {
+            for variant in 0..4u64 {
+                if (k as u64 * 4 + variant) % sh_n != sh_i {
                     continue;
                 }
                 let mut r = Rng::new(args.seed(), "c02-many", k as u64 * 8 + variant);
-                for shift in [0u128, 0x1_0000_0000 - 7, TOP - 1 - 5 * nreg as u128 - 3] {
+                for shift in [0u128, 0x1_0000_0000 - 7, TOP - 1 - if variant == 3 { 8 * nreg as u128 + 40 } else { 5 * nreg as u128 + 3 }] {
                     let mut regs = vec![];
                     let mut cur = shift;
-                    for _ in 0..nreg {
-                        let l = match variant { 0 => 1, 1 => 1 + r.below(3) as u128, _ => 2 };
+                    for i in 0..nreg {
+                        // variant 3: start addresses EQUALLY SPACED (stride 8), lengths 1..=8 - except
+                        // the last region, which is longer than the spacing (a "regular" map with an
+                        // irregular top)
+                        let l = match variant {
+                            0 => 1,
+                            1 => 1 + r.below(3) as u128,
+                            2 => 2,
+                            _ if i + 1 == nreg => 8 + 5 + r.below(20) as u128,
+                            _ => 1 + r.below(8) as u128,
+                        };
                         regs.push((cur, l));
-                        cur += l + match variant { 0 => 1, 1 => r.below(3) as u128, _ => 0 };
+                        cur += match variant { 0 => l + 1, 1 => l + r.below(3) as u128, 2 => l, _ => if i + 1 == nreg { l } else { 8 } };
                     }
                     let lo = shift.saturating_sub(2) as u64;
                     let addrs: Vec<u64> = (0..(cur - shift + 5) as u64).map(|d| lo.wrapping_add(d)).chain([0, u64::MAX]).collect();
